@@ -177,7 +177,7 @@ def strip(line):
     return " ".join(t[1:] if t and t[0].isdigit() else t)
 
 
-TRANSFORMS = ["type-standard", "type-standard-back", "platform", "platform-back", "port_nr", "protocol_nr", "resequence", "sort", "group", "ungroup", "type", "ungroup_ports", "grouped-platform", "delete_shadow"]
+TRANSFORMS = ["grouped-sort", "grouped-resequence", "grouped-port_nr", "grouped-protocol_nr", "type-standard", "type-standard-back", "platform", "platform-back", "port_nr", "protocol_nr", "resequence", "sort", "group", "ungroup", "type", "ungroup_ports", "grouped-platform", "delete_shadow"]
 
 
 def check_ids(arg):
@@ -185,10 +185,27 @@ def check_ids(arg):
     platform, tr = arg
     acl = objects(platform)[13 if tr.startswith("type-standard") else 11][1]()
     other = "nxos" if platform == "ios" else "ios"
+    pre_grouped = tr in ("grouped-sort", "grouped-resequence", "grouped-port_nr", "grouped-protocol_nr")
+    if pre_grouped:
+        # the ACL is grouped first and the groups get notes: the transformation must keep the group objects as well
+        acl.group("=")
+        for i, o in enumerate(acl.items):
+            if isinstance(o, cisco_acl.AceGroup):
+                o.note = Note(("group", i))
+    groups_before = [(o.uuid, repr(o.note)) for o in acl.items if isinstance(o, cisco_acl.AceGroup)] if pre_grouped else []
     before = ids(acl)
     fails = []
     try:
-        if tr == "platform":
+        if tr == "grouped-sort":
+            acl.resequence(10, 10)
+            acl.sort()
+        elif tr == "grouped-resequence":
+            acl.resequence(5, 5)
+        elif tr == "grouped-port_nr":
+            acl.port_nr = True
+        elif tr == "grouped-protocol_nr":
+            acl.protocol_nr = True
+        elif tr == "platform":
             acl.platform = other
         elif tr == "platform-back":
             acl.platform = other
@@ -240,6 +257,11 @@ def check_ids(arg):
             continue
         if (e[2], repr(e[3])) not in pool.get(key(e), []):
             (lost_nested if e[1] else lost_items).append((key(e), e[3]))
+    if pre_grouped:
+        groups_after = [(o.uuid, repr(o.note)) for o in acl.items if isinstance(o, cisco_acl.AceGroup)]
+        if sorted(groups_after) != sorted(groups_before):
+            fails.append(dict(key=f"bounded/Acl.{tr}:ids:groups", what=f"`{tr}` replaced ACE group objects: (uuid, note) {groups_before} -> {groups_after}",
+                              inputs=dict(platform=platform, transform=tr)))
     if lost_items:
         fails.append(dict(key=f"bounded/Acl.{tr}:ids:items", what=f"`{tr}` changed the uuid/note of {len(lost_items)} item(s): {lost_items[:3]}", inputs=dict(platform=platform, transform=tr)))
     if lost_nested:
@@ -272,7 +294,7 @@ def main(chk):
         for f in fails:
             viol += 1
             chk.finding(f["key"], f["what"], inputs=f["inputs"], cmd=f.get("cmd"), key=f["key"])
-    chk.add_bounded("in-place transformations keep uuid and note of items and of nested objects", len(cases), len(cases), "14 transformations x 2 platforms on a 7-item ACL (eq, range, gt ports, address group) with notes everywhere",
+    chk.add_bounded("in-place transformations keep uuid and note of items and of nested objects", len(cases), len(cases), "18 transformations x 2 platforms on a 7-item ACL (eq, range, gt ports, address group) with notes everywhere",
                     viol, time.time() - t0, [list(cases[0])], exhaustive=True)
     chk.assumptions += ["aliasing through **data() dictionaries and __dict__.update needs an ownership logic pyvc does not have: no obligation is discharged deductively"]
     return chk.finish("other", "Bounded contract check only (object-graph identity and aliasing): equal rebuilds, disjoint reachable mutable state, mutate-then-observe, "
